@@ -164,3 +164,12 @@ def concrete_id(c, model, term, default):
             elif kind == "contains" and lit not in name:
                 name = name + lit
     return name
+
+
+def ints(b):
+    """the two ends of a Bounds as plain ints for a replay report -- never raises: a malformed value (nested tuples, None)
+    is reported by its repr, it is the replay's comparison that decides, not this rendering"""
+    try:
+        return [int(x) for x in b.as_tuple()]
+    except Exception:
+        return repr(b)
